@@ -1209,7 +1209,10 @@ impl<T: TypeConfig> RaftRoleState for LeaderState<T> {
                         "my({}) term < request one, now I will step down to Follower",
                         my_id
                     );
-                    //TODO: if there is a bug?  self.update_current_term(vote_request.term);
+                    // Adopt the sender's term before announcing it as leader: the leader-change
+                    // notification pairs `new_leader_id` with our current term.
+                    self.update_current_term(cluste_conf_change_request.term);
+                    self.stepping_down = true;
                     self.send_become_follower_event(
                         Some(cluste_conf_change_request.id),
                         &internal_event_tx,
@@ -1246,7 +1249,10 @@ impl<T: TypeConfig> RaftRoleState for LeaderState<T> {
                         "my({}) term < request one, now I will step down to Follower",
                         my_id
                     );
-                    //TODO: if there is a bug?  self.update_current_term(vote_request.term);
+                    // Adopt the sender's term before announcing it as leader: the leader-change
+                    // notification pairs `new_leader_id` with our current term.
+                    self.update_current_term(append_entries_request.term);
+                    self.stepping_down = true;
                     // Revoke lease immediately — window-period fix (see VoteRequest branch).
                     self.shared_state.lease.revoke();
                     self.send_become_follower_event(
